@@ -90,6 +90,14 @@ def build_sandbox(root, rng, placement, opts_on):
             os.symlink("nowhere.png", os.path.join(pd, "sub", "assets", "dangling.png"))
             os.symlink(os.path.join(root, "bystander"), os.path.join(pd, "shared", "to_bystander"))
             os.chmod(os.path.join(pd, "notes.txt"), 0o444)
+        if opts_on.get("linked_page_subdir"):
+            # a sub-directory of the page directory that is a symbolic link to a directory outside it (documentation shared between projects)
+            os.makedirs(os.path.join(root, "shared_guide", "figs"))
+            open(os.path.join(root, "shared_guide", "index.md"), "w").write("title: Guide\ncopy_subdir: figs\n\nshared guide text\n")
+            open(os.path.join(root, "shared_guide", "more.md"), "w").write("title: More\n\nmore text\n")
+            open(os.path.join(root, "shared_guide", "attach.txt"), "w").write("attachment\n")
+            open(os.path.join(root, "shared_guide", "figs", "f.png"), "wb").write(b"PNG3")
+            os.symlink(os.path.join("..", "..", "shared_guide"), os.path.join(pd, "guide"))
         opts["page_dir"] = "./pages"
         if opts_on.get("copy_subdir"):
             opts["copy_subdir"] = ["shared"]
@@ -159,6 +167,15 @@ def build_sandbox(root, rng, placement, opts_on):
         os.symlink(".", os.path.join(proj, "self"))
         opts["output_dir"] = "./self/src"
         refusal = True
+    if opts_on.get("outside_src") and not refusal:
+        # a second source directory outside the project directory, holding files with the base names of files of the first
+        os.makedirs(os.path.join(root, "common", "sub"))
+        open(os.path.join(root, "common", "a.f90"), "w").write("module cmod_common_a\n!! doc\nend module cmod_common_a\n")
+        open(os.path.join(root, "common", "sub", "b.f90"), "w").write("module cmod_common_b\n!! doc\nend module cmod_common_b\n")
+        sd = opts["src_dir"] if isinstance(opts["src_dir"], list) else [opts["src_dir"]]
+        opts["src_dir"] = sd + ["../common"]
+    if opts_on.get("force"):
+        opts["force"] = True  # "try to continue past errors" is no licence to delete sources
     if opts.get("graph") and opts_on.get("graph_dir"):
         g = opts_on["graph_dir"]
         if g == "sibling":
@@ -247,6 +264,9 @@ def case(arg):
         if isinstance(mode, tuple) and len(mode) > 2:
             opts_on = {k: True for k in opts_on}
         opts_on["hostile_inputs"] = rng.random() < 0.4
+        opts_on["outside_src"] = rng.random() < 0.4
+        opts_on["linked_page_subdir"] = rng.random() < 0.4
+        opts_on["force"] = rng.random() < 0.5
         opts_on["graph_dir"] = [None, "sibling", "in_output", "absolute", "contains_sources"][seed % 5]
         if opts_on["graph_dir"] and rng.random() < 0.8:
             opts_on["graph"] = True
@@ -357,7 +377,8 @@ def main():
         rule="case = (placement of output_dir in {sibling, nested, absolute, through a symlink, with .., inside a source dir, stale output present; "
         "refusal cases: equal to a source dir, parent of it, grandparent of a second source dir, same directory through a symlinked path}, "
         "graph_dir in {none, sibling, inside output, absolute}, random subset of {page_dir, copy_subdir, media_dir, css, favicon, mathjax_config, "
-        "incl_src, externalize, search, graph}, working directory = project dir or elsewhere, fault = none or OSError injected at the k-th "
+        "incl_src, externalize, search, graph, force, a second source directory outside the project with equal file names, a page sub-directory "
+        "that is a symbolic link to a directory outside page_dir}, working directory = project dir or elsewhere, fault = none or OSError injected at the k-th "
         "mutating file-system event of the real `python -m ford` process). Non-trivial: every case (distinct by placement, option vector, cwd, k).",
         assumptions=["the audit hook sees the FORD process; writes of `dot` children are covered by the sandbox snapshot (and by strace in the thorough tier)",
                      "atime changes are not compared; inputs the user placed inside the output directory are not protected (except source dirs: refusal)",
